@@ -186,7 +186,7 @@ func (f *fakeCI) Peek(ip gostatsd.Source) (*gostatsd.Instance, bool) {
 	inst, ok := f.cache[ip]
 	return inst, ok
 }
-func (f *fakeCI) IpSink() chan<- gostatsd.Source            { return f.sink }
+func (f *fakeCI) IpSink() chan<- gostatsd.Source           { return f.sink }
 func (f *fakeCI) InfoSource() <-chan gostatsd.InstanceInfo { return f.info }
 func (f *fakeCI) EstimatedTags() int                       { return 2 }
 
@@ -587,8 +587,8 @@ type seq struct {
 	pat         map[string][]byte
 	log         []string
 
-	bad      bool   // a violation was recorded in this case
-	progress string // first bounded-progress failure (judged by the caller)
+	bad            bool   // a violation was recorded in this case
+	progress       string // first bounded-progress failure (judged by the caller)
 	progressDetail string
 }
 
@@ -1277,7 +1277,7 @@ func seqCase(r *mon.Run, idx int) (abort bool) {
 func TestCheck(t *testing.T) {
 	r := mon.Start(t, "C11")
 	defer r.Finish()
-	r.Rule("sequential cases: PRNG scripts of 6-30 steps over {metric batch (1-4 datapoints, mostly one source, sometimes mixed / empty source), event, complete the outstanding lookup of s with instance | not-found (negative cache entry) | error (nil, nothing cached), evict s, emit stats} with 1-4 sources, judged after every step against a model of cache and parked sets; concurrent cases: 2-4 dispatcher goroutines, a completer answering requested sources with random outcomes and evictions, an emitter, judged offline on the stamped log. Non-trivial: a source that had both metrics and events parked around one pending lookup, or a failed lookup followed by a re-arrival; distinct by the per-source step pattern (M/E parked, m/e immediate, I/N/X completion, V evict), concurrent runs by (sources, dispatchers, what was parked). Integrated cases: the real CloudHandler on the real CachedCloudProvider (scripted CloudProvider with random per-call outcomes F/P/E/X/Y, batch limit 1/2/5/16, optionally one call held open; 12 h TTLs and a mock clock that never moves) with 1-6 sources: first a forced late arrival (the return of a missing Peek is delayed until the first lookup of that source was answered and handled, so the item needs a second lookup of an already cached source), then 2-4 concurrent dispatchers with further delayed misses; judged by the same offline oracle on what a logging decorator saw (cache hits, lookups written, InstanceInfos delivered), plus bounded progress: nothing stays parked once every provider call returned and every lookup was answered. Distinct by (sources, batch limit, dispatchers, kind and outcome of the late item, held call). Server cases: the real statsd.Server via RunWithCustomSocket with 0-3 filter blocks from a pool of nine (drop-host, drop-tags / match-tags on provider tags, drop-metric, match / exclude metrics), 0-3 static tags, ignore-host on/off, 2-5 sources with per-source lookup outcome, 6-15 datagrams of 1-3 lines plus 2-5 events; distinct by (ignore-host, static tags, filter list), counted when an enriched item met static tags or a filter touching provider data. Configuration cases: random flag / env / toml / yaml settings of max-cloud-requests, burst-cloud-requests, cloud-cache-* through cmd/gostatsd's setupConfiguration + newCachedInstancesFromViper (overlay runner); distinct by (max, burst, burst<=max, batch limit, how the keys were set).")
+	r.Rule("sequential cases: PRNG scripts of 6-30 steps over {metric batch (1-4 datapoints, mostly one source, sometimes mixed / empty source), event, complete the outstanding lookup of s with instance | not-found (negative cache entry) | error (nil, nothing cached), evict s, emit stats} with 1-4 sources, judged after every step against a model of cache and parked sets; concurrent cases: 2-4 dispatcher goroutines, a completer answering requested sources with random outcomes and evictions, an emitter, judged offline on the stamped log. Non-trivial: a source that had both metrics and events parked around one pending lookup, or a failed lookup followed by a re-arrival; distinct by the per-source step pattern (M/E parked, m/e immediate, I/N/X completion, V evict), concurrent runs by (sources, dispatchers, what was parked). Integrated cases: the real CloudHandler on the real CachedCloudProvider (scripted CloudProvider with random per-call outcomes F/P/E/X/Y, batch limit 1/2/5/16, optionally one call held open; 12 h TTLs and a mock clock that never moves) with 1-6 sources: first a forced late arrival (the return of a missing Peek is delayed until the first lookup of that source was answered and handled, so the item needs a second lookup of an already cached source), then 2-4 concurrent dispatchers with further delayed misses; judged by the same offline oracle on what a logging decorator saw (cache hits, lookups written, InstanceInfos delivered), plus bounded progress: nothing stays parked once every provider call returned and every lookup was answered. Distinct by (sources, batch limit, dispatchers, kind and outcome of the late item, held call). Slow-provider cases (two per quick run): the first provider call takes 5.5-7 s of real time for a batch of 4-6 sources, either failing when its context ends / after that time, or ignoring the context and succeeding; every parked item must still leave exactly once, enriched iff the lookup succeeded. Server cases: the real statsd.Server via RunWithCustomSocket with 0-3 filter blocks from a pool of nine (drop-host, drop-tags / match-tags on provider tags, drop-metric, match / exclude metrics), 0-3 static tags, ignore-host on/off, 2-5 sources with per-source lookup outcome, 6-15 datagrams of 1-3 lines plus 2-5 events; distinct by (ignore-host, static tags, filter list), counted when an enriched item met static tags or a filter touching provider data. Configuration cases: random flag / env / toml / yaml settings of max-cloud-requests, burst-cloud-requests, cloud-cache-* through cmd/gostatsd's setupConfiguration + newCachedInstancesFromViper (overlay runner); distinct by (max, burst, burst<=max, batch limit, how the keys were set).")
 	r.Assume("the fake CachedInstances answers only requested sources and populates its cache before delivering the InstanceInfo, like the real caches")
 	r.Assume("MetricMap.Receive builds the input maps; ref.FromMap flattens what arrives downstream")
 
@@ -1293,6 +1293,8 @@ func TestCheck(t *testing.T) {
 			integCase(r, rc.Index)
 		} else if rc.Mode == "server" {
 			serverCase(r, rc.Index)
+		} else if rc.Mode == "slow" {
+			slowCase(r, rc.Index, rc.Index%2 == 0)
 		} else {
 			seqCase(r, rc.Index)
 		}
@@ -1301,6 +1303,17 @@ func TestCheck(t *testing.T) {
 		return
 	}
 
+	// slow-provider cases wait 5.5-7 s of real time: two per quick run (shards 0 and 1), one per shard up to
+	// eight in the thorough tier, running beside the other cases of their shard
+	var slow sync.WaitGroup
+	defer slow.Wait()
+	if sh, _ := r.Shard(); sh < r.Pick(2, 8) {
+		slow.Add(1)
+		go func() {
+			defer slow.Done()
+			slowCase(r, sh, sh%2 == 0)
+		}()
+	}
 	nSeq := r.N(2400, 250000)
 	nConc := r.N(120, 10000)
 	for i := 0; i < nSeq; i++ {
